@@ -210,6 +210,14 @@ func (k *skel) stmt(s ast.Stmt) string {
 		return "(return" + k.exprs(s.Results) + ")"
 	case *ast.DeclStmt:
 		gd, ok := s.Decl.(*ast.GenDecl)
+		if ok && gd.Tok == token.TYPE {
+			r := "(type"
+			for _, sp := range gd.Specs {
+				ts := sp.(*ast.TypeSpec)
+				r += " " + ts.Name.Name + " " + typeAtom(ts.Type)
+			}
+			return r + ")"
+		}
 		if !ok || gd.Tok != token.VAR {
 			return k.fail(s, "declaration")
 		}
@@ -264,10 +272,13 @@ func (k *skel) expr(e ast.Expr) string {
 		}
 		return "(lambda (" + strings.Join(params, " ") + ")" + k.stmts(e.Body.List) + ")"
 	case *ast.CompositeLit:
-		if len(e.Elts) != 0 {
-			return k.fail(e, "composite literal with elements")
+		t := "-"
+		if e.Type != nil {
+			t = typeAtom(e.Type)
 		}
-		return "(lit " + types.ExprString(e.Type) + ")"
+		return "(lit " + t + k.exprs(e.Elts) + ")"
+	case *ast.KeyValueExpr:
+		return "(kv " + k.expr(e.Key) + " " + k.expr(e.Value) + ")"
 	case *ast.CallExpr:
 		if id, ok := e.Fun.(*ast.Ident); ok && id.Name == "make" && len(e.Args) >= 1 {
 			if _, isChan := e.Args[0].(*ast.ChanType); isChan {
@@ -281,6 +292,12 @@ func (k *skel) expr(e ast.Expr) string {
 		return "(" + k.expr(e.Fun) + k.exprs(e.Args) + ")"
 	}
 	return k.fail(e, "expression")
+}
+
+// typeAtom prints a type expression as one atom.
+func typeAtom(e ast.Expr) string {
+	r := strings.NewReplacer(" ", "", "\n", "", "\t", "", "(", "<", ")", ">", ";", ",")
+	return r.Replace(types.ExprString(e))
 }
 
 // SortedNames returns the keys of m in order.
